@@ -11,8 +11,8 @@ import (
 
 func init() {
 	register(&Property{
-		ID:  "C12",
-		Run: runC12,
+		ID:      "C12",
+		Run:     runC12,
 		Explain: "Structure of the fail-over logic in client.(*Client).sendToKDC, dialSendUDP/TCP and sendTCP: (1) on every return with a nil error the bytes returned are, on every path and for every phi operand, the result of a sendKDCTCP/sendKDCUDP call whose error was tested nil on that path (catches results bound to a shadowed variable or zero-value operands); (2) transport order: udp_preference_limit 1 ⇒ TCP only; small requests UDP first with TCP tried on every UDP failure except a KRB-ERROR other than RESPONSE_TOO_BIG (52); large requests TCP first with UDP tried on every non-KRB-ERROR failure; (3) KRB-ERROR arms return the asserted KRBError itself; (4) the dial loops visit i = 1…len(kdcs), every failure continues with the next server, the only in-loop return is a success, the error after the loop is non-nil, SetDeadline precedes each send and the dial timeout is a finite constant; (5) TCP framing: 4-byte big-endian length of exactly the request, reply sized from the 4-byte big-endian header; (6) no recursion through sendToKDC.",
 		NotDecided: []string{
 			"socket-level behaviour per fault pattern (runtime); a short first read of the TCP length header (bare conn.Read) is printed as a note",
@@ -418,7 +418,9 @@ func runC12(w *World, c *Check) {
 		rd := ta0.Calls(`.*\.Read`)
 		rf := ta0.Calls(`io\.ReadFull`)
 		tw := w.Pos(tf.Pos())
-		is4 := func(v ssa.Value) bool { return fullMatch(`local<\[4\]byte>(#\d+)?\[:4\]|make\(\[\]byte, 4\)`, ta0.R.R(v)) }
+		is4 := func(v ssa.Value) bool {
+			return fullMatch(`local<\[4\]byte>(#\d+)?\[:4\]|make\(\[\]byte, 4\)`, ta0.R.R(v))
+		}
 		lastArg := func(ci ssa.CallInstruction, i int) ssa.Value {
 			a := ci.Common().Args
 			return a[len(a)-i]
@@ -452,7 +454,31 @@ func runC12(w *World, c *Check) {
 		}
 		c.Decide(okLen, "C12.framing", "client.sendTCP", "reply-length", tw, "the reply length is the big-endian uint32 of the 4 bytes read from the connection", fmt.Sprintf("Uint32 calls: %v", renderCalls(ta0, u32)))
 		okRF := len(rf) == 1 && fullMatch(`io\.ReadFull\(conn, make\(\[\]byte, .*Uint32\(.*\)\)\)`, ta0.RenderCall(rf[0]))
-		c.Decide(okRF, "C12.framing", "client.sendTCP", "reply-read-full", tw, "the reply is read in full into a buffer of exactly that length", fmt.Sprintf("ReadFull calls: %v", renderCalls(ta0, rf)))
+		cn := ta0.Calls(`io\.CopyN`)
+		if !okRF && len(rf) == 0 && len(cn) == 1 {
+			// the equivalent that does not pre-allocate: exactly that many bytes copied from the connection into a buffer whose bytes are returned
+			okRF = fullMatch(`io\.CopyN\(local<bytes\.Buffer>(#\d+)?, conn, .*Uint32\(.*\)\)`, ta0.RenderCall(cn[0]))
+			// the count is the decoded length itself (identity), not an expression over it
+			if okRF && len(u32) == 1 {
+				n := cn[0].Common().Args[2]
+				for {
+					cv, isConv := n.(*ssa.Convert)
+					if !isConv {
+						break
+					}
+					n = cv.X
+				}
+				okRF = n == u32[0].Value()
+			}
+			ret := false
+			for _, rs := range ta0.returnsOf() {
+				if len(rs) == 2 && rs[1] == "nil" && fullMatch(`bytes\.\(\*Buffer\)\.Bytes\(local<bytes\.Buffer>(#\d+)?\)`, rs[0]) {
+					ret = true
+				}
+			}
+			okRF = okRF && ret
+		}
+		c.Decide(okRF, "C12.framing", "client.sendTCP", "reply-read-full", tw, "exactly the announced number of bytes is read from the connection (io.ReadFull into a buffer of that length, or io.CopyN of that length) and those bytes are what is returned", fmt.Sprintf("ReadFull calls: %v; CopyN calls: %v", renderCalls(ta0, rf), renderCalls(ta0, cn)))
 		ta := NewFuncAn(w, tf)
 		for _, ci := range ta.Calls(`.*\.Read`) {
 			if !strings.Contains(ta.CalleeName(ci), "ReadFull") {
